@@ -277,10 +277,8 @@ def run_knn(ck, rng, dn, thorough):
                 if not ck.mine(case):
                     continue
                 D = int(rng.integers(1, 7))
-                n1 = int(rng.choice([1, 2, 3, 7, 40, int(rng.integers(1, 301))]))
-                n2 = int(rng.choice([1, 2, 5, 33, int(rng.integers(1, 301))]))
-                if not thorough:
-                    n1, n2 = min(n1, 120), min(n2, 150)
+                n1 = int(rng.choice([1, 2, 3, 7, 40, int(rng.integers(1, 301)), 257, 300]))
+                n2 = int(rng.choice([1, 2, 5, 33, int(rng.integers(1, 301)), 257, 300]))
                 bshape = [(), (), (2,), (2, 3)][int(rng.integers(0, 4))]
                 if n1 * n2 > 8000:
                     bshape = ()
@@ -369,9 +367,7 @@ def run_nbr(ck, rng, dn, thorough):
                     continue
                 pdim = int(rng.integers(1, 7))
                 extra = int(rng.choice([0, 0, 1, 3]))
-                n = int(rng.choice([1, 2, 3, 6, 25, int(rng.integers(4, 301))]))
-                if not thorough:
-                    n = min(n, 150)
+                n = int(rng.choice([1, 2, 3, 6, 25, int(rng.integers(4, 301)), 257, 300]))      # up to the 300 points of the property, both tiers
                 if kind == "outliers":
                     n = max(n, 6)
                 pts, out_idx = cloud(rng, n, pdim, kind, dn, where, nout=int(rng.integers(1, 5)))
@@ -480,9 +476,7 @@ def run_knn_filter(ck, rng, dn, thorough):
                     continue
                 pdim = int(rng.integers(1, 7))
                 extra = int(rng.choice([0, 0, 1, 3]))
-                n = int(rng.choice([1, 2, 3, 6, 25, int(rng.integers(4, 301))]))
-                if not thorough:
-                    n = min(n, 150)
+                n = int(rng.choice([1, 2, 3, 6, 25, int(rng.integers(4, 301)), 257, 300]))      # up to the 300 points of the property, both tiers
                 if kind == "outliers":
                     n = max(n, 6)
                 pts, out_idx = cloud(rng, n, pdim, kind, dn, where, nout=int(rng.integers(1, 4)))
@@ -637,9 +631,7 @@ def run_voxel(ck, rng, dn, thorough):
                 extra = int(rng.choice([0, 0, 1, 3]))
                 if vdim + extra > 6 + 3:
                     extra = 0
-                n = 1 if mode == "single-point" else int(rng.choice([2, 3, 7, 30, int(rng.integers(2, 301))]))
-                if not thorough:
-                    n = min(n, 150)
+                n = 1 if mode == "single-point" else int(rng.choice([2, 3, 7, 30, int(rng.integers(2, 301)), 257, 300]))
                 got = voxel_cloud(rng, n, vdim, dn, "coarse" if mode == "single-point" else mode)
                 if got is None:
                     ck.note_add("voxel_cases_redrawn_ambiguous_floor")
